@@ -127,7 +127,7 @@ class IndexableArray(RaggedBase):
             )
         col = np.asanyarray(col)
         col = np.where(col < 0, self._shape.lengths[row]+col, col)
-        flat_idx = self._shape.starts[row] + col
+        flat_idx = self._shape.starts[row] + col*getattr(self._shape, "col_step", 1)
         return flat_idx, None
 
     def _get_view(self, view, do_split=False):
